@@ -72,6 +72,70 @@ def run_uvh(cmd, out, seed, tier, cases=None, extra=None, timeout=7200, env=None
         return json.load(f)
 
 
+def run_uvh_guarded(cmd, out, seed, tier, cases, budget_s, per_case_s=30, mem_gb=24):
+    """Run a harness command whose library calls may not terminate or may exhaust memory.
+    The harness logs START/END per case; if the run exceeds its (generous) watchdog or dies by a signal, the cases
+    that started but never ended are re-run one by one. A case that again fails to finish within `per_case_s`
+    (>= 1000x the median case) or aborts again is a deterministic non-termination / abort: it is returned as a
+    divergence of the termination clause. Anything else is inconclusive, never a violation."""
+    import resource
+    prog = os.path.join(out, "progress.log")
+    env = dict(os.environ, UVH_PROGRESS=prog)
+
+    def limits():
+        resource.setrlimit(resource.RLIMIT_AS, (mem_gb << 30, mem_gb << 30))
+
+    argv = [UVH, cmd, "--out", out, "--seed", str(seed), "--tier", tier, "--cases", str(cases)]
+    died = None
+    try:
+        p = subprocess.run(argv, stdout=subprocess.PIPE, stderr=subprocess.PIPE, text=True, timeout=budget_s, env=env, preexec_fn=limits)
+        if p.returncode != 0:
+            died = "exit status %s" % p.returncode
+    except subprocess.TimeoutExpired:
+        died = "watchdog (%ds)" % budget_s
+    if died is None:
+        with open(os.path.join(out, "result.json")) as f:
+            return json.load(f), []
+    started, ended = [], set()
+    if os.path.exists(prog):
+        for line in open(prog):
+            w = line.split()
+            if len(w) == 2 and w[0] == "START":
+                started.append(int(w[1]))
+            elif len(w) == 2 and w[0] == "END":
+                ended.add(int(w[1]))
+    suspects = [k for k in started if k not in ended]
+    log("[watchdog] %s: %s; %d suspect case(s): %s" % (cmd, died, len(suspects), suspects[:20]))
+    extra = []
+    confirmed = 0
+    procs = []
+    for k in suspects[:16]:
+        o2 = os.path.join(out, "suspect-%d" % k)
+        os.makedirs(o2, exist_ok=True)
+        a2 = [UVH, cmd, "--out", o2, "--seed", str(seed), "--tier", tier, "--case", str(k)]
+        procs.append((k, subprocess.Popen(a2, stdout=subprocess.DEVNULL, stderr=subprocess.DEVNULL, preexec_fn=limits)))
+    deadline = time.time() + per_case_s
+    for k, q in procs:
+        why = None
+        try:
+            rc = q.wait(timeout=max(0.1, deadline - time.time()))
+            if rc != 0:
+                why = "aborts (exit status %s) when run alone" % rc
+        except subprocess.TimeoutExpired:
+            q.kill()
+            q.wait()
+            why = "does not terminate within %ds when run alone (other cases take milliseconds)" % per_case_s
+        if why:
+            confirmed += 1
+            extra.append({"cmd": cmd, "seed": seed, "case": k, "sig": "non-termination-or-abort", "features": [],
+                          "detail": "case %d %s; replay with ./check --replay" % (k, why)})
+    if not confirmed:
+        raise Inconclusive("%s: %s, and no suspect case reproduces it" % (cmd, died))
+    # the remaining cases: run again without the offenders is not possible in-process; report what was confirmed
+    return {"evaluations": len(started), "observations": 0, "distinct_nontrivial": len(set(started)), "counters": {}, "features": {},
+            "samples": [], "divergences": [], "inconclusive": [], "inconclusive_count": 0}, extra
+
+
 def load_known():
     with open(os.path.join(VERIF, "known_findings.json")) as f:
         return json.load(f)["findings"]
